@@ -201,10 +201,10 @@ def pick_text(rng, bg, thr, band):
 ALL_FEATURES = (
     "vars", "var-fallback", "var-undefined", "var-chain", "var-shared", "root-direct-color", "root-and-html",
     "important", "repeat-decl", "prop-case", "nesting", "bg-var", "keywords", "opaque-atrules", "vendor-hacks",
-    "star-hack", "non-ascii", "crlf", "bom", "cdo-cdc", "alpha-text", "comments", "no-color-rules", "odd-strings", "dup-root", "nested-root", "unicode-seps",
+    "star-hack", "non-ascii", "crlf", "bom", "cdo-cdc", "alpha-text", "comments", "no-color-rules", "odd-strings", "dup-root", "nested-root", "unicode-seps", "dup-selectors",
 )
 # features outside what the reference cascade of C08 models or what C08's statement quantifies over
-C09_ONLY = ("opaque-atrules", "vendor-hacks", "star-hack", "crlf", "bom", "cdo-cdc", "odd-strings", "dup-root", "nested-root", "unicode-seps")
+C09_ONLY = ("opaque-atrules", "vendor-hacks", "star-hack", "crlf", "bom", "cdo-cdc", "odd-strings", "dup-root", "nested-root", "unicode-seps", "dup-selectors")
 
 _SEL_FORMS = (".r%d", "#id%d", "a.x%d:hover", "div > p.k%d", "[data-x=\"%d\"]", "ul li.i%d", "h%d")
 _SEL_FORMS_NONASCII = (".r\u00e9%d", ".\u4e2d%d", "#\u00fc%d")
@@ -214,7 +214,7 @@ _OTHER_DECLS = ("margin: 0", "font-size: 14px", "border: 1px solid #123456", "ba
 _COMMENTS = ("/* note */", "/**/", "/* color: #777; */", "/* a{b:c} */", "/*! keep */")
 _OPAQUE_STMTS = (
     "@import url(\"x.css\");", "@import 'y.css' screen;", "@namespace svg url(http://www.w3.org/2000/svg);",
-    "@layer base, components;", "@unknown-thing foo bar;",
+    "@layer base, components;", "@unknown-thing foo bar;", "@media print;", "@supports (display: grid);",
 )
 _OPAQUE_BLOCKS = (
     "@font-face { font-family: \"F\"; src: url(f.woff2) format(\"woff2\"); }",
@@ -471,6 +471,14 @@ class SheetGen:
                         b["decls"].insert(r.randrange(len(b["decls"]) + 1), {"raw": r.choice(_COMMENTS)})
             for b in blocks:
                 self.decorate(b["decls"])
+        if "dup-selectors" in f and items:
+            # the same selector on several rules (very common in real stylesheets)
+            for _ in range(r.randint(1, 2)):
+                src = r.choice([it for it in items if it["t"] == "rule"] or [None])
+                if src is not None:
+                    dup = self.colour_rule(selector=src["sel"]) if r.random() < 0.7 else self.plain_rule()
+                    dup["sel"] = src["sel"]
+                    items.insert(r.randrange(len(items) + 1), dup)
         items = self.wrap(items)
         if "nested-root" in f:
             # a :root / html rule inside @media (conditional tokens, e.g. a dark theme): not a top-level block
